@@ -3,6 +3,7 @@
 //!
 //! `hx c19 width`  case: blank separated hex code points      -> `cp:width_cjk:width` per code point (string-level
 //!                                                               measurement of the one-character string, as display.rs does)
+//! `hx c19 swidth` case: blank separated percent-encoded texts  -> `width_cjk:width` per text (string level)
 //! `hx c19 text`   case: `(precs (C N)...) <enc ledger text>` -> parse with the real parser, then as `tree`; plus
 //!                                                               `fmt=` the output of FormatOptions::format on the text
 //! `hx c19 tree`   case: `(precs (C N)...) (e1 e2 ...)`       -> entries decoded from the S-expression (same format as
@@ -406,6 +407,18 @@ fn run_text(line: &str) -> String {
     format!("{}{}", status, &rec[2..])
 }
 
+/// string-level widths of whole texts: blank separated percent-encoded strings -> `width_cjk:width` each
+fn run_swidth(line: &str) -> String {
+    line.split(' ')
+        .filter(|w| !w.is_empty())
+        .map(|w| match sx::dec(w) {
+            Some(s) => format!("{}:{}", UnicodeWidthStr::width_cjk(s.as_str()), UnicodeWidthStr::width(s.as_str())),
+            None => "-:-".to_string(),
+        })
+        .collect::<Vec<_>>()
+        .join(" ")
+}
+
 fn run_width(line: &str) -> String {
     let mut parts = Vec::new();
     for w in line.split(' ').filter(|w| !w.is_empty()) {
@@ -421,8 +434,8 @@ fn run_width(line: &str) -> String {
 
 pub fn run(args: &[String], out: &mut dyn Write) -> i32 {
     let mode = args.first().map(|s| s.as_str()).unwrap_or("");
-    if !matches!(mode, "width" | "text" | "tree") {
-        eprintln!("usage: hx c19 width|text|tree");
+    if !matches!(mode, "width" | "swidth" | "text" | "tree") {
+        eprintln!("usage: hx c19 width|swidth|text|tree");
         return 2;
     }
     let mode = mode.to_string();
@@ -432,6 +445,7 @@ pub fn run(args: &[String], out: &mut dyn Write) -> i32 {
         let m = mode.clone();
         let rec = sx::catch(move || match m.as_str() {
             "width" => run_width(&line),
+            "swidth" => run_swidth(&line),
             "text" => run_text(&line),
             _ => run_tree(&line),
         });
